@@ -583,6 +583,26 @@ func (e *ruleEnv) instantiate(c map[string]interface{}) []*ruleText {
 		}
 		e.addKeys(rt, num("nkeys"), false)
 		return []*ruleText{rt}
+	case "wlike":
+		rt := &ruleText{ast: newAst(), c07: true, cls: "wlike"}
+		rt.ast.List, rt.ast.Action = "exit", str("action")
+		rt.args = []string{"-a", rt.ast.Action + ",exit"}
+		parg, pit, _, _ := e.filterFor(str("pf"), str("pop"), "short")
+		marg, mit, _, _ := e.filterFor("perm", "=", str("permv"))
+		switch str("perm") {
+		case "before":
+			rt.args = append(rt.args, "-F", marg, "-F", parg)
+			rt.ast.Items = append(rt.ast.Items, mit, pit)
+		case "after":
+			rt.args = append(rt.args, "-F", parg, "-F", marg)
+			rt.ast.Items = append(rt.ast.Items, pit, mit)
+		default:
+			rt.args = append(rt.args, "-F", parg)
+			rt.ast.Items = append(rt.ast.Items, pit)
+		}
+		e.syscallShape(rt, str("sc"), "")
+		e.addKeys(rt, num("nkeys"), false)
+		return []*ruleText{rt}
 	case "nfields":
 		rt := &ruleText{ast: newAst(), c07: true, cls: "nfields"}
 		rt.ast.List, rt.ast.Action = "exit", "always"
@@ -865,6 +885,22 @@ func ruleRunCmd(args []string) int {
 		w.write(map[string]interface{}{"k": "build", "trace": trace, "cls": rt.cls, "via": "struct", "ast": rt.ast, "line": line,
 			"ret": os2.ret, "wire": bytesOf(os2.wire), "err": os2.err, "c07": rt.c07})
 		stats["struct_build_"+os2.ret]++
+		// and the same rule value built again, as a caller does to delete what it added: Build is a function of the rule
+		if os2.ret == "ok" {
+			sr := rt.structRule()
+			buildStruct(sr)
+			buildStruct(sr)
+			os3 := buildStruct(sr)
+			w.write(map[string]interface{}{"k": "build", "trace": trace, "cls": rt.cls, "via": "struct-again", "ast": rt.ast, "line": line,
+				"ret": os3.ret, "wire": bytesOf(os3.wire), "err": os3.err, "c07": rt.c07})
+			if pr, err := flags.Parse(line); err == nil {
+				buildStruct(pr)
+				os4 := buildStruct(pr)
+				w.write(map[string]interface{}{"k": "build", "trace": trace, "cls": rt.cls, "via": "parsed-again", "ast": rt.ast, "line": line,
+					"ret": os4.ret, "wire": bytesOf(os4.wire), "err": os4.err, "c07": rt.c07})
+			}
+			stats["rebuilds"]++
+		}
 		if *round && rt.c07 {
 			wire := o.wire
 			if o.ret != "ok" {
